@@ -290,3 +290,38 @@ func H_C06_operator_grouping() {
 	}
 	vReach("end")
 }
+
+// H_C06_adjacent_strings: several string tokens in a row - the shape of a trailer's /ID pair or of a TJ array - each keep
+// their own value in both parsers (a token's bytes must not be overwritten by the tokens read ahead of it).
+//
+//symgo:harness prop=C06 kernel=K2b-adjacent-strings
+//symgo:desc an array of 2..3 string tokens chosen from {<4142>, <43>, <00FF10>, (lit), (a\)b)} (enumerated, repetitions allowed), separated by nothing, a space or a newline (enumerated), bare or as the value of /ID in a dictionary that also holds /N 1 (enumerated): core.ParseObject and contentstream.Parse (as operand of q) both return the strings with exactly their own bytes, in order
+func H_C06_adjacent_strings() {
+	toks := []string{"<4142>", "<43>", "<00FF10>", "(lit)", "(a\\)b)"}
+	vals := []string{"AB", "C", "\x00\xff\x10", "lit", "a)b"}
+	sep := []string{"", " ", "\n"}[vAnyIntIn(0, 2)]
+	n := vAnyIntIn(2, 3)
+	src := "["
+	var want core.Array
+	for i := 0; i < n; i++ {
+		k := vAnyIntIn(0, len(toks)-1)
+		if i > 0 {
+			src += sep
+		}
+		src += toks[k]
+		want = append(want, core.String(vals[k]))
+	}
+	src += "]"
+	var wantObj core.Object = want
+	if vAnyIntIn(0, 1) == 1 {
+		src = "<</ID" + src + "/N 1>>"
+		wantObj = core.Dict{"ID": want, "N": core.Int(1)}
+	}
+	o1, err1 := core.NewParser(bytes.NewReader([]byte(src + " "))).ParseObject()
+	vAssert("document-parser-accepts", err1 == nil)
+	vAssert("document-parser-same-values", vEqObj(o1, wantObj))
+	ops, err2 := NewParser([]byte(src + " q")).Parse()
+	vAssert("content-parser-accepts", err2 == nil && len(ops) == 1 && len(ops[0].Operands) == 1)
+	vAssert("content-parser-same-values", vEqObj(ops[0].Operands[0], wantObj))
+	vReach("end")
+}
